@@ -2,6 +2,7 @@
 #define PHOTOSPLINE_FITSIO_H
 
 #include <string.h>
+#include <cmath>
 
 namespace photospline{
 	
@@ -352,6 +353,11 @@ bool splinetable<Alloc>::read_fits_core(fitsfile* fits, const std::string& fileP
 		if(nknots_temp<=0)
 			throw std::runtime_error("Invalid number of knots ("+std::to_string(nknots_temp)+") in dimension "+std::to_string(i));
 		nknots[i]=nknots_temp;
+		//the coefficient array, the order and the knot vector must describe the same spline space
+		if(nknots[i]<2*uint64_t(order[i])+2 || nknots[i]-order[i]-1!=naxes[i])
+			throw std::runtime_error("Inconsistent table: "+std::to_string(nknots[i])+" knots, order "
+			                         +std::to_string(order[i])+" and "+std::to_string(naxes[i])
+			                         +" coefficients in dimension "+std::to_string(i));
 		
 		//Allow spline evaluations to run off the ends of the
 		//knot field without segfaulting.
@@ -362,6 +368,10 @@ bool splinetable<Alloc>::read_fits_core(fitsfile* fits, const std::string& fileP
 		fits_read_pix(fits, TDOUBLE, &fpix, nknots[i], NULL, &knots[i][0], NULL, &error);
 		if (error != 0)
 			throw std::runtime_error("Error reading knot vector "+std::to_string(i)+" data");
+		for(uint64_t j=0; j<nknots[i]; j++){
+			if(!std::isfinite(knots[i][j]) || (j>0 && knots[i][j]<knots[i][j-1]))
+				throw std::runtime_error("Knot vector "+std::to_string(i)+" is not finite and non-decreasing");
+		}
 	}
 	
 	//Read the axes extents, stored in a single extension HDU.
